@@ -17,6 +17,12 @@ FIRST = {
     "S08b-scheduler-start-count-ignores-retraction": ("missed", "C08 gained scripted_trace (retracting plan-ahead policy whose attributes match the offers it asks for)"),
     "S17b-stale-topological-order-cache": ("missed", "C17 gained graph_history: all clauses re-asked after every add_node/add_child/remove on one Graph object"),
     "S01b-reload-profile-skips-booking": ("missed", None),
+    "S11e-ilp-skips-precedence-for-scheduled-children": ("missed (state never built)", "scheduler-input states for C11 may contain children that an earlier invocation planned ahead (SCHEDULED after a RUNNING/SCHEDULED parent)"),
+    "S18e-release-loop-breaks-at-cancelled-child": ("missed at the quick budget (caught at 4x)", "C18 graph_states: a third of the graphs are forks, a dedicated operation drops the first child of a running fork, budget 1200 -> 3000; caught at 4 of 4 seeds afterwards"),
+    "S14e-plan-ahead-horizon-cached-on-the-scheduler": ("missed (every case used a fresh policy object)", "C14: a third of the TetriSched cases reuse a policy object that has already served an earlier invocation with a short deadline (history independence of the planners)"),
+    "S10e-infeasible-path-answers-for-running-tasks": ("missed (the planners' infeasible-model path was never taken)", "C10 gained commitment_calls: non-retracting planners under enforced tight deadlines, half of them in the one-slot shape (running task, promised successor without slack, newcomer)"),
+    "S01e-rollback-deletes-the-wrong-slice": ("missed by C01 (caught by C04 resources_machine; only reachable through Worker/Resources call sequences)", None),
+    "S06e-not-ready-deferral-not-cached": ("missed by C06 (the run crashes: caught by C05 simulate_raises)", None),
     "S04d-pool-ledger-update-overwrites-shared-keys": ("missed (getter never read, ids never shared)", "C04 pools_machine reads the pool-level ledger (WorkerPool.resources, get_utilization) after every operation and builds a third of its clusters with machine-local resource ids"),
     "S13d-fit-test-refuses-zero-request-of-exhausted-type": ("missed", "C13 profiles may contain a zero-quantity entry (as C01's do)"),
     "S19d-gamma-coefficient-override-becomes-fallback": ("missed (oracle gap: release-policy parameters were not compared)", "C19 compares rate, coefficient, concurrency, num_invocations and period of every loaded policy with the description and the override flags"),
